@@ -123,6 +123,7 @@ def run(ctx):
     repo = ctx.repo
     _no_memoised_hash_on_mutable(ctx, repo)
     _from_op_list_unitary_guard(ctx, repo)
+    _clifford_pow_is_repeated_product(ctx, repo)
     shared.act_on_routes_qubits_rule(ctx, 'C13.l', floor=3)
     ctx.decided.append('C13.l every state update in an _act_on_ is routed through the qubits the gate is applied to')
     ctx.decided += [
@@ -772,3 +773,63 @@ def _from_op_list_unitary_guard(ctx, repo):
     ctx.ob('C13.k', f'{ci.qual}.from_op_list:accepts', ok, '' if ok else
            f'operations are accepted under `{ast.unparse(t)[:90]}`: a measurement or reset passes (it has a stabilizer effect) and is applied to the scratch tableau with a fixed random '
            'outcome, so the returned "gate" is not the operation sequence', ci.mod.rel, tests[0].lineno)
+
+
+def _clifford_pow_is_repeated_product(ctx, repo, rid='C13.m'):
+    """C13.m - CliffordGate.__pow__(k) composes exactly k copies of the gate (or of its inverse)."""
+    ctx.decided.append(f'{rid} CliffordGate.__pow__: the square-and-multiply loop, interpreted with tableaux modelled as integer powers of one element (then = +, inverse = -, the fresh '
+                       'tableau = 0), returns the k-th power for every integer k in [-40, 40]')
+    ctx.rule(rid, 'power == k-fold product: interpreting CliffordGate.__pow__ over the model group Z (a tableau is the integer power of the base gate it stands for; then() adds, '
+             'inverse() negates, CliffordTableau(num_qubits=..) is 0), the result is the integer `exponent` for every probe exponent - a bit of the exponent that is skipped or used '
+             'twice in the binary exponentiation shows up as another integer', floor=40, style='FDX')
+    ci = repo.cls('cirq.ops.clifford_gate.CliffordGate')
+    fn = ci.methods.get('__pow__')
+    if fn is None:
+        raise AnalysisError('CliffordGate.__pow__ vanished')
+
+    class T:
+        def __init__(self, k):
+            self.k = k
+            self.n = 1
+
+    for k in list(range(-40, 41)):
+        def call_hook(call, it):
+            f = call.func
+            s_ = ast.unparse(f)
+            if isinstance(f, ast.Attribute) and f.attr in ('then', 'inverse', 'copy'):
+                recv = it.ev(f.value)
+                if isinstance(recv, T):
+                    if f.attr == 'then':
+                        o = it.ev(call.args[0])
+                        if not isinstance(o, T):
+                            raise fdx.Unsupported('then() of a non-tableau')
+                        return T(recv.k + o.k)
+                    if f.attr == 'inverse':
+                        return T(-recv.k)
+                    return T(recv.k)
+            if s_.split('.')[-1] == 'CliffordTableau':
+                return T(0)
+            if s_.split('.')[-1] == 'from_clifford_tableau':
+                return it.ev(call.args[0])
+            if s_.endswith('_num_qubits_') or s_.endswith('num_qubits'):
+                return 1
+            return NotImplemented
+
+        def attr_hook(node, it):
+            try:
+                v = it.ev(node.value)
+            except fdx.Unsupported:
+                return NotImplemented
+            if isinstance(v, T) and node.attr in ('k', 'n'):
+                return getattr(v, node.attr)
+            return NotImplemented
+        base = T(1)
+        it = fdx.NumInterp({'self': {'clifford_tableau': base, '_clifford_tableau': base}, 'exponent': k}, call_hook=call_hook, attr_hook=attr_hook)
+        try:
+            out = it.call(fn)
+        except (fdx.Unsupported, fdx.Raised) as ex:
+            raise AnalysisError(f'CliffordGate.__pow__ is outside the interpretable subset: {ex}')
+        got = 1 if isinstance(out, dict) else (out.k if isinstance(out, T) else None)     # `return self` is the first power
+        ok = got == k
+        ctx.ob(rid, f'{ci.qual}.__pow__:k={k}', ok, '' if ok else
+               f'g**{k} is composed as g**{got}: the binary exponentiation skips or repeats a factor (g**3 * g**3 would differ from g**6)', ci.mod.rel, fn.lineno, construct=f'{ci.qual}.__pow__')
